@@ -22,6 +22,7 @@ T2_OPS = ["login2", "stop", "set_position", "get_shutter_state", "get_breeze_sta
 DAY_NAMES = ["MONDAY", "TUESDAY", "WEDNESDAY", "THURSDAY", "FRIDAY", "SATURDAY", "SUNDAY"]
 DAY_BITS = {n: 2 << i for i, n in enumerate(DAY_NAMES)}
 LOGIN_KIND = {1: "login", 2: "login2"}
+MUTATED: List[Any] = []   # caller-owned arguments the library changed (drained by the checks)
 
 
 def api_type(op: str) -> int:
@@ -63,8 +64,15 @@ async def call(api, op: str, a: Dict[str, Any], remote=None):
     if op == "create_schedule":
         days = [Days[d] for d in a["days"]]
         form = a.get("days_form", "set")
+        if form == "default":
+            return await api.create_schedule(a["start"], a["end"])   # the library's own default for days
         arg = set(days) if form == "set" else (list(days) if form == "list" else tuple(days))
-        return await api.create_schedule(a["start"], a["end"], arg)
+        before = list(arg)
+        try:
+            return await api.create_schedule(a["start"], a["end"], arg)
+        finally:
+            if list(arg) != before or len(arg) != len(before):
+                MUTATED.append(("create_schedule.days", [d.name for d in before], [getattr(d, "name", repr(d)) for d in arg]))
     if op == "stop":
         return await api.stop()
     if op == "set_position":
